@@ -182,6 +182,14 @@ func (m *MonRestart) AfterBlock(s *Sim, req *BlockReq, res *BlockRes) {
 			site = "panic:" + r2.Panic.Call + ":" + r2.Panic.Site
 			d += " / " + firstLine(r2.Panic.Value)
 		}
+		if r2.Panic == nil {
+			// what differs on disk after this block (diagnosis)
+			if e2, err := m.N.DiskExport(); err == nil && s.Post != nil {
+				if dd := DiffExports(s.Post, e2, 6); len(dd) > 0 {
+					d += " | export (never restarted -> restarted): " + fmt.Sprint(dd)
+				}
+			}
+		}
 		m.fail(s, "responses-differ-after-restart", site, fmt.Sprintf("restarts so far %d: %s", m.done, d), req.Height)
 		return
 	}
